@@ -4,6 +4,8 @@ from __future__ import annotations
 
 import collections
 import hashlib
+import signal
+import threading
 import time
 import traceback
 
@@ -91,8 +93,21 @@ class Execution:
         self.extra[what] += n
 
     # ----------------------------------------------------------------------------------
+    def _alarm(self, signum, frame):
+        raise Abort("wall-clock cap (watchdog)")
+
     def run(self):
         t0 = time.time()
+        # watchdog: a runaway that never reaches the objective (e.g. an endless rejection loop) must end as the
+        # counted outcome 'aborted', not hang the check
+        armed = False
+        if threading.current_thread() is threading.main_thread():
+            try:
+                old = signal.signal(signal.SIGALRM, self._alarm)
+                signal.setitimer(signal.ITIMER_REAL, self.TIME_CAP * 1.5)
+                armed = True
+            except (ValueError, OSError):
+                armed = False
         try:
             if self.shim is not None:
                 self.shim.begin(self)
@@ -107,6 +122,9 @@ class Execution:
             self.exc = "".join(traceback.format_exception_only(type(e), e)).strip()
             self.exc_tb = traceback.format_exc(limit=12)
         finally:
+            if armed:
+                signal.setitimer(signal.ITIMER_REAL, 0)
+                signal.signal(signal.SIGALRM, old)
             if self.shim is not None:
                 self.shim.finish()
         return self
